@@ -4,7 +4,7 @@ The real function is executed symbolically (path splitting) on shapes whose NUMB
 pattern of previously fused axes are fixed per task and whose SIZES are symbolic positive integers:
 
 The requests are exactly those of the property's quantifier, enumerated as RECIPES over a shape with
-n <= 4 axes (5 in the thorough tier) of symbolic sizes d0.. >= 1 (a rank-bounded proof, complete for every size assignment):
+n <= 4 axes (5 in the thorough tier; plus, for 7 axes -- thorough: 6 to 8 -- the merge recipes whose groups have\none or two axes, which is where several separate runs of fuse groups first occur) of symbolic sizes d0.. >= 1 (a rank-bounded proof, complete for every size assignment):
 
   forward   drop any subset of axes (those are assumed to have size one) and merge the remaining ones
             into adjacent groups: the target entries are the products of the group sizes;
@@ -142,12 +142,18 @@ def _check(it, nm, shape, subs, target, witness_sizes):
     return plan
 
 
-def _recipe_tasks(n):
+def _recipe_tasks(n, small_groups_only=False):
+    """small_groups_only: for larger n only the recipes without dropped axes whose groups have one or two axes
+    (several runs of adjacent fuse groups separated by untouched axes need >= 7 axes)"""
     out = []
     for k in range(n + 1):
+        if small_groups_only and k > 0:
+            break
         for drop in itertools.combinations(range(n), k):
             kept = [i for i in range(n) if i not in drop]
             for runs in _compositions(len(kept)):
+                if small_groups_only and (max(len(r) for r in runs) > 2 or all(len(r) == 1 for r in runs)):
+                    continue
                 groups = [[kept[j] for j in r] for r in runs]
                 tag = "drop" + ("".join(map(str, drop)) or "-") + ".merge" + ("|".join("".join(map(str, g)) for g in groups) or "-")
 
@@ -310,6 +316,8 @@ def tasks():
     out = []
     for n in range(0, MAX_N + 1 + (1 if thorough() else 0)):
         out += _recipe_tasks(n)
+    for n in ((6, 7, 8) if thorough() else (7,)):
+        out += _recipe_tasks(n, small_groups_only=True)
     for n in range(0, 4 + (1 if thorough() else 0)):
         out += _expand_tasks(n)
     for n in range(0, 4):
